@@ -88,6 +88,9 @@ var targets = []target{
 		Locals: []string{"feeNumerator", "feeDenominator", "targetTokenNumerator", "targetTokenDenominator", "targetTokenAmtAfterFee"}, Guards: true, Conds: true},
 	{Group: "Farm", Mod: "farm", Pkg: "keeper", Func: "Keeper.updatePool", Lean: "updatePool",
 		Locals: []string{"blockInterval", "rewardCollected", "newRewardPerShare", "rules_i_RewardPerShare", "rules_i_RemainingReward"}, Guards: true, Conds: true},
+	{Group: "Farm", Mod: "farm", Pkg: "keeper", Func: "Keeper.AdjustPool", Lean: "AdjustPool",
+		Locals: []string{"startHeight", "remainingHeight", "inteval", "availableHeight", "expiredHeight", "rules_i_TotalReward", "rules_i_RemainingReward", "pool_EndHeight"},
+		Calls:  []string{"updatePool", "UpdateWith", "SetRewardRules", "DequeueActivePool", "EnqueueActivePool"}, Guards: true, Conds: true},
 	{Group: "Farm", Mod: "farm", Pkg: "types", Func: "FarmPool.CaclRewards", Lean: "CaclRewards",
 		Locals: []string{"pendingRewardTotal", "pendingReward", "locked", "debt"}, Guards: true, Conds: true},
 	{Group: "Htlc", Mod: "htlc", Pkg: "keeper", Func: "Keeper.IncrementCurrentAssetSupply", Lean: "IncCurrent",
@@ -258,7 +261,7 @@ var methods = map[string]method{
 	"Int.GT":     {"Int_GT", false, kBool}, "Int.GTE": {"Int_GTE", false, kBool}, "Int.LT": {"Int_LT", false, kBool},
 	"Int.LTE": {"Int_LTE", false, kBool}, "Int.Equal": {"Int_Equal", false, kBool},
 	"Int.BigInt": {"Int_BigInt", false, kBig}, "Int.Neg": {"Int_Neg", false, kInt},
-	"Int.ToLegacyDec": {"Int_ToLegacyDec", false, kDec},
+	"Int.ToLegacyDec": {"Int_ToLegacyDec", false, kDec}, "Int.Int64": {"Int_Int64", true, kI64},
 
 	"Dec.Add": {"Dec_Add", true, kDec}, "Dec.Sub": {"Dec_Sub", true, kDec}, "Dec.Mul": {"Dec_Mul", true, kDec},
 	"Dec.Quo": {"Dec_Quo", true, kDec}, "Dec.MulTruncate": {"Dec_MulTruncate", true, kDec},
@@ -973,6 +976,28 @@ func translateFunc(p *packages.Package, fd *ast.FuncDecl, lean string, knownGo m
 // fragment mode: the right-hand side of every assignment to one of the named locals, each as
 // its own definition over the identifiers it mentions
 func translateLocals(p *packages.Package, fd *ast.FuncDecl, tg target, knownGo map[string]string) (defs []string, errs []string) {
+	// the definitions come out in SOURCE order across kinds (assignments, call arguments, guards, conditions), so that
+	// the pinned list also fixes the order of a write relative to a read or a call
+	var poss []token.Pos
+	last := token.NoPos
+	mark := func() {
+		for len(poss) < len(defs) {
+			poss = append(poss, last)
+		}
+	}
+	defer func() {
+		mark()
+		idx := make([]int, len(defs))
+		for i := range idx {
+			idx[i] = i
+		}
+		sort.SliceStable(idx, func(a, b int) bool { return poss[idx[a]] < poss[idx[b]] })
+		out := make([]string, len(defs))
+		for i, j := range idx {
+			out[i] = defs[j]
+		}
+		defs = out
+	}()
 	want := map[string]bool{}
 	for _, l := range tg.Locals {
 		want[l] = true
@@ -1005,6 +1030,8 @@ func translateLocals(p *packages.Package, fd *ast.FuncDecl, tg target, knownGo m
 				continue
 			}
 			id := struct{ Name string }{lname}
+			mark()
+			last = as.Pos()
 			count[id.Name]++
 			name := fmt.Sprintf("%s_%s_%d", tg.Lean, id.Name, count[id.Name])
 			func() {
@@ -1056,6 +1083,8 @@ func translateLocals(p *packages.Package, fd *ast.FuncDecl, tg target, knownGo m
 				return true
 			}
 			nth[sel.Sel.Name]++
+			mark()
+			last = c.Pos()
 			for ai, a := range c.Args {
 				k := kindOf(p.TypesInfo.TypeOf(a))
 				if k == kOther || k == kErr || k == kBytes {
@@ -1110,6 +1139,8 @@ func translateLocals(p *packages.Package, fd *ast.FuncDecl, tg target, knownGo m
 			if c := types.ExprString(is.Cond); c == "err != nil" || (strings.HasPrefix(c, "!") && !strings.ContainsAny(c, "(. ")) {
 				continue // outcome of a lookup or of address parsing: not arithmetic
 			}
+			mark()
+			last = is.Pos()
 			func() {
 				t := &tr{pkg: p, opaque: true, pseen: map[string]bool{}, bound: map[string]kind{}, knownGo: knownGo}
 				defer func() {
